@@ -184,6 +184,12 @@ def run(ck, F):
         bad += ['returns ' + p['result'][:60] for p in paths if 'result' in p]
         ck.check(R3, sid, not bad, f'{fid} does not allocate a fresh node on every path: {bad}', loc=f['loc'], fn=fid)
 
+    # what was found once is found again: the ordered indexes are searched the way they are filled (a declaration that a lookup by
+    # type answered must not disappear when further overloads are entered)
+    import c08 as _c08
+    import c11 as _c11
+    _c08.run(_c11._Only(ck, {'descent'}), F, prefix='C05')
+
     # a node that is shared by everyone who asks for the same thing is handed out read-only
     const_handles(ck, F, 'C05')
 
